@@ -61,6 +61,9 @@ def gen_cases(tier, seed):
         base["layout"] = layout
         base["route"] = ["list", "dir", "glob", "merge", "merge_pf", "list_root", "merge_root"][int(rng.integers(0, 7))]
         base["mismatch"] = [None, None, None, None, "renamed", "dtype", "extra"][int(rng.integers(0, 7))] if k >= 2 else None
+        if base["mismatch"] and i % 3 == 0:
+            # files that differ only in a PARAMETER of a type: time-zone awareness of a timestamp, width of a fixed-width text
+            base["mismatch"] = ["tz", "width"][(i // 3) % 2]
         cases.append(base)
     # --- footer-length lattice: the footers of files 2..k are fetched together with a tail of int(1.4 * first footer) bytes and
     #     re-fetched when that is too small: the third file's footer length is stepped across that boundary
@@ -137,7 +140,17 @@ def run_case(case):
         first = None
         for j, f in enumerate(case["files"]):
             df = D.build_dataset_frame({"frame": f["frame"], "opts": {}})
-            if case.get("mismatch") and j == len(case["files"]) - 1:
+            fixed_text = None
+            if case.get("mismatch") == "tz":
+                df["when"] = pd.Timestamp("2021-03-04 05:06:07") + pd.to_timedelta(np.arange(len(df)), "h")
+                if j == len(case["files"]) - 1:
+                    df["when"] = df["when"].dt.tz_localize("UTC")
+            elif case.get("mismatch") == "width":
+                fw = np.empty(len(df), dtype=object)
+                fw[:] = [("%04d" % x)[:2] for x in range(len(df))]
+                df["fw"] = pd.Series(fw, dtype=object, index=df.index)      # (a plain assignment would make it a pandas-3 str column, for which fixed_text is not applied)
+                fixed_text = {"fw": 4 if j == len(case["files"]) - 1 else 2}
+            elif case.get("mismatch") and j == len(case["files"]) - 1:
                 if case["mismatch"] == "renamed":
                     df = df.rename(columns={df.columns[-1]: "renamed_col"})
                 elif case["mismatch"] == "dtype":
@@ -151,6 +164,9 @@ def run_case(case):
             oe = {c["name"]: {"ostr": "utf8", "bytes": "bytes"}[c["kind"]] for c in f["frame"]["cols"] if c["kind"] in ("ostr", "bytes")}
             if oe:
                 kw["object_encoding"] = dict({str(c): "infer" for c in df.columns}, **oe)
+            if fixed_text:
+                kw["fixed_text"] = fixed_text
+                kw["object_encoding"] = dict(kw.get("object_encoding") or {str(c): "infer" for c in df.columns}, fw="utf8")
             try:
                 fastparquet.write(p, df, compression=f["compression"], **C.write_kwargs(kw))
             except Exception as e:
@@ -200,6 +216,7 @@ def run_case(case):
                     res["failures"].append({"kind": "schema_mismatch_accepted", "how": how, **ctx})
                 except Exception as e:
                     counters["mismatch_rejected"] = counters.get("mismatch_rejected", 0) + 1
+                    counters["mismatch_rejected:" + case["mismatch"]] = counters.get("mismatch_rejected:" + case["mismatch"], 0) + 1
                     if not isinstance(e, Exception):
                         res["failures"].append({"kind": "schema_mismatch_non_exception", "how": how, **ctx})
             res["outcome"] = "ok"
@@ -357,4 +374,4 @@ def run_case(case):
 def required(tier):
     return {"opens_compared": 120, "route:list": 15, "route:dir": 15, "route:glob": 15, "route:merge": 15, "route:merge_pf": 15,
             "footer_path:new": 30, "footer_path:legacy": 30, "mismatch_rejected": 20, "partition_values_checked": 100, "footer_lattice_points": 30,
-            "growing_vocabulary_opens": 20, "merge_with_root": 10, "piece_handles_rechecked": 40, "second_opens_from_derived_handles": 10}
+            "growing_vocabulary_opens": 20, "merge_with_root": 10, "piece_handles_rechecked": 40, "second_opens_from_derived_handles": 10, "mismatch_rejected:tz": 3, "mismatch_rejected:width": 3}
